@@ -7,6 +7,11 @@ every single-token deletion, duplication, substitution by and insertion of each
 lexeme of the RING vocabulary.  2 deviations (thorough): all pairs of
 token-level edits on the shortest seeds.  Plus all strings of length <= 4 (5)
 over a 15-character alphabet and all sequences of <= 2 (3) RING keywords.
+Label references across reactants (domains/w5_c09): every rule with two
+reactants out of 5 (6) patterns of 1-3 atoms (three out of 2 (3) patterns), with
+distinct or re-declared labels, x each spelling of the five two-label and six
+one-label transformations x every ordered pair (every one) of the declared
+labels, an undefined label and a reactant name as operands.
 "Never hangs" is decided by a deterministic work budget on ParseState.peek.
 """
 import itertools
@@ -14,6 +19,7 @@ import traceback
 
 from ..runner import Result
 from ..domains import ringtexts as RT
+from ..domains import w5_c09 as W5
 
 LEVEL = 'exploration'
 BOUND = {'quick': 'all seeds; every truncation; every 1-token edit over %d '
@@ -22,13 +28,28 @@ BOUND = {'quick': 'all seeds; every truncation; every 1-token edit over %d '
                   'layouts with all truncations and 1-token deletions / '
                   'duplications; 14 chain constructs x 5 lengths up to 1200 '
                   'links; every digit token replaced by runs of up to 5000 '
-                  'digits' % (len(RT.LEXEMES), len(RT.KEYWORDS)),
+                  'digits; label references across reactants: every ordered '
+                  'pair of %d reactant patterns of 1-3 atoms and every ordered '
+                  'triple of %d, labels distinct or re-declared, x %d two-label '
+                  'and %d one-label transformations x every ordered pair '
+                  '(every one) of the declared labels, an undefined label and '
+                  'a reactant name, each followed by its electron-balancing '
+                  'edits' % (len(RT.LEXEMES), len(RT.KEYWORDS),
+                             len(W5.PAIR_SHAPES['quick']),
+                             len(W5.TRIPLE_SHAPES['quick']),
+                             len(W5.OPS2), len(W5.OPS1)),
          'thorough': 'more generated seeds; 2-token edits (reduced lexeme set) '
                      'of the 12 shortest seeds; strings of length <= 5; keyword '
-                     'sequences of length <= 3'}
+                     'sequences of length <= 3; label references across '
+                     'reactants: pairs over %d patterns, triples over %d, and '
+                     'every two-label transformation also without its '
+                     'balancing edits' % (len(W5.PAIR_SHAPES['thorough']),
+                                          len(W5.TRIPLE_SHAPES['thorough']))}
 RULE = ('deviation-bounded enumeration: every text within the stated edit '
         'distance of a seed, plus the complete short-string and '
-        'keyword-sequence languages, is passed to Read; non-trivial = the '
+        'keyword-sequence languages, and every rule of the label-reference '
+        'family (reactant patterns x transformation x operand labels, '
+        'complete within its bound), is passed to Read; non-trivial = the '
         'reader got past the first token (error position beyond line 1 column '
         '1, a reader error, NotImplementedError, or acceptance)')
 ASSUMPTIONS = ['a RINGReaderError raised while a RecursionError is being '
@@ -47,7 +68,11 @@ ASSUMPTIONS = ['a RINGReaderError raised while a RecursionError is being '
                'long inputs: each right-recursive chain of the grammar with up '
                'to 1200 (thorough: 3000) links, digit runs up to 5000 digits; '
                'whether such a text is accepted or refused with a RING error '
-               'is not judged, only that nothing else escapes']
+               'is not judged, only that nothing else escapes',
+               'label references across reactants: which of these rules is '
+               'accepted and which is refused is not predicted (no reference '
+               'reader for rules with several reactants); only the outcome '
+               'class, the work budget and full consumption are judged']
 MANIFEST = dict(
     technique='deviation-bounded exhaustive enumeration of reader inputs (0, 1, '
               '2 token edits of seeds; complete short-string languages) with a '
@@ -56,7 +81,10 @@ MANIFEST = dict(
          'substitution and insertion (over the RING vocabulary plus undefined '
          'labels, unknown elements and non-ASCII tokens) of seeds covering the '
          'grammar, and the complete languages of short strings and keyword '
-         'sequences, are read; each must end, within a counted work budget, in '
+         'sequences, are read, and so is every rule with two or three small '
+         'reactants that applies one transformation to every choice of '
+         'operand labels (own reactant, other reactant, undefined, a '
+         'reactant name); each must end, within a counted work budget, in '
          'a query of the announced kind with the text consumed in full, a '
          'RINGSyntaxError positioned inside the text, a RINGReaderError or '
          'NotImplementedError.',
@@ -225,6 +253,9 @@ def shards(tier, seed):
     for n in RT.LONG_N[tier]:
         out.append(('long', n))
     out.append(('digits',))
+    for sh in W5.shape_tuples(tier):
+        for shared in (False, True):
+            out.append(('xr', sh, shared))
     for c in RT.SHORT_ALPHABET:
         out.append(('short', c))
     for k in range(len(RT.KEYWORDS)):
@@ -327,6 +358,13 @@ def run_shard(shard, tier):
                     for d in ('7', '9'):
                         run_text(R, ' '.join(d * L if (len(t) == 1 and t.isdigit()) else t
                                              for t in toks), 'digit-run-all')
+    elif shard[0] == 'xr':
+        # label references across reactants (domains/w5_c09)
+        text = None
+        for fam, text in W5.rule_texts(shard[1], shard[2], tier):
+            cls = run_text(R, text, fam)
+            R.extra['%s:%s' % (fam, cls)] += 1
+        R.sample(dict(label_reference_rule=text), limit=1)
     elif shard[0] == 'short':
         n = 4 if tier == 'quick' else 5
         if shard[1] == RT.SHORT_ALPHABET[0]:
